@@ -45,4 +45,12 @@ inductive RateArm
   /-- `default * (m.clock_rate()? / default)` -/
   | scaled (default : Lit)
 
+/-- value of an arm of the Lazer `reflection` closure (`src/model/mods.rs`) -/
+inductive ReflVal
+  /-- `Some(Reflection::r)` -/
+  | const (r : Reflection)
+  /-- `match mr.reflection.as_deref() { None => unset, Some("s") => …, Some(_) => other }` -/
+  | bySetting (unset : Reflection) (cases : List (String × Reflection)) (other : Reflection)
+  deriving DecidableEq, Repr
+
 end Rosu.Mods
